@@ -80,8 +80,8 @@ pub fn run(ctx: &Ctx) -> i32 {
     );
 
     // character level (names are not pre-tokenised): includes a multi-byte character and a tab
-    let chars = ["a", "c", "p", "_", "é", "=", "+", "e", " ", ",", "\t", "A"];
-    let cl = if ctx.thorough() { 7 } else { 6 };
+    let chars = ["a", "c", "p", "_", "é", "=", "+", "e", " ", ",", "\t", "A", "\u{b}", "\u{a0}", "\u{2003}", "\u{85}"];
+    let cl = if ctx.thorough() { 6 } else { 5 };
     let nc = strings_count(chars.len(), cl);
     let cacc = merge(par_fold(nc, Acc::new, |i, acc| {
         let mut toks = Vec::with_capacity(8);
@@ -89,7 +89,29 @@ pub fn run(ctx: &Ctx) -> i32 {
         let s: String = toks.iter().map(|t| chars[*t]).collect();
         check_text(&s, i, acc);
     }));
-    let s1b = SubReport::new("characters", "A", &format!("every string of ≤ {} characters over {:?} ({} strings): same entry points and oracle", cl, chars, nc), cacc);
+    // pieces of every length around the powers of two, with a multi-byte character straddling the boundary,
+    // in each position of a clause (name, second name, after the operator, second clause)
+    let mut cacc = cacc;
+    for l in [3usize, 4, 7, 8, 15, 16, 17, 27, 28, 29, 30, 31, 32, 33, 63, 64, 65, 127, 128, 129, 255, 256, 257, 1024] {
+        for back in 0..5usize {
+            let fill = "x".repeat(l.saturating_sub(back));
+            for mb in ["é", "語", "😀"] {
+                for text in [
+                    format!("{}{}=ep", fill, mb),
+                    format!("cap_{}{}=ep", fill, mb),
+                    format!("cap_chown,{}{}=ep", fill, mb),
+                    format!("+{}{}", fill, mb),
+                    format!("-{}{}=e", fill, mb),
+                    format!("cap_chown={}{}", fill, mb),
+                    format!("=e {}{}+p", fill, mb),
+                    format!("{}{}", fill, mb),
+                ] {
+                    check_text(&text, 1 << 50, &mut cacc);
+                }
+            }
+        }
+    }
+    let s1b = SubReport::new("characters", "A", &format!("every string of ≤ {} characters over {:?} ({} strings), plus clause pieces of length 3…1024 (every power of two ± 2) ending in a 2-, 3- or 4-byte character in each clause position: same entry points and oracle", cl, chars, nc), cacc);
 
     // accepted text comes back verbatim from a built package's FILECAPS
     let dir = crate::ctx::run_dir().join("c19");
